@@ -76,6 +76,16 @@ def instances(tier, seed):
     return out
 
 
+def witness_instances(fn, lst, tier):
+    """reachability twins only where a non-trivial true instance exists (a block with the wrong number of rows always
+    raises: nothing to witness there)"""
+    if fn == "assign":
+        ok = [i for i in lst if i["params"]["B"] == i["params"]["r1"] - i["params"]["r0"] >= 1 and i["params"]["part"] is None
+              and not i["params"].get("wide")]
+        return ok[-1:] if tier == "quick" else ok[-6:]
+    return lst[-1:] if tier == "quick" else lst[-3:]
+
+
 def setup(params):
     install_space_mul()
     H.abstract_int_text()
